@@ -78,11 +78,13 @@ def _mono_mul(m1, m2):
 
 
 class Poly:
-    __slots__ = ("terms", "_key")
+    __slots__ = ("terms", "_key", "_atoms", "_lin")
 
     def __init__(self, terms=None):
         self.terms = {m: c for m, c in (terms or {}).items() if c != 0}
         self._key = None
+        self._atoms = None
+        self._lin = None
 
     # ---------------------------------------------------------------- constructors
     @staticmethod
@@ -114,10 +116,12 @@ class Poly:
         return None
 
     def atoms(self):
-        s = set()
-        for m in self.terms:
-            s.update(m)
-        return s
+        if self._atoms is None:
+            s = set()
+            for m in self.terms:
+                s.update(m)
+            self._atoms = frozenset(s)
+        return self._atoms
 
     def is_atom(self):
         """the atom if this poly is exactly one atom with coefficient 1, else None"""
@@ -128,7 +132,9 @@ class Poly:
         return None
 
     def is_linear(self):
-        return all(len(m) <= 1 for m in self.terms)
+        if self._lin is None:
+            self._lin = all(len(m) <= 1 for m in self.terms)
+        return self._lin
 
     def degree(self):
         return max([len(m) for m in self.terms] or [0])
